@@ -180,6 +180,7 @@ def reference_env(T, users, y):
     Te = fmul(T, Fraction(float("8.617343e-5")))
     vars_ = {"Tgas": T, "Te": Te, "lnTe": H.UF1("log", Te), "T32": fdiv(T, Fraction(300)), "invT": fdiv(Fraction(1), T), "invTe": fdiv(Fraction(1), Te), "sqrTgas": H.UF1("sqrt", T)}
     vars_.update(users)
+    vars_["Hnuclei"] = z3.Real("nH")  # KROME's total hydrogen nuclei is naunet's nH parameter
     return {"vars": vars_, "y": y}
 
 
@@ -263,7 +264,7 @@ from naunet.species import Species
 exprs = json.load(open(sys.argv[1]))
 KROMEReaction.initialize()
 KROMEReaction.preprocessing('@format:idx,R,R,R,P,P,P,P,P,Tmin,Tmax,rate')
-KROMEReaction.preprocessing('@common:user_a,user_crflux')
+KROMEReaction.preprocessing('@common:' + ','.join(sorted({m for e in exprs for m in __import__('re').findall(r'\buser_\w+', e)} | {'user_a', 'user_crflux'})))
 out = []
 der = None
 for e in exprs:
@@ -290,10 +291,11 @@ def translate(exprs, work):
 
 
 def make_tu(cexprs, deriveds, lifted):
+    global USER
     macros = "\n".join(f"#define IDX_{a} {i}" for a, i in SLOT.items())
     der = "\n".join(f"    double {k} = {v};" for k, v in (deriveds or {}).items() if k in DERIVED)
     body = "\n".join(f"    out[{i}] = {c};" for i, c in cexprs)
-    return f"#include <math.h>\n{macros}\nextern \"C\" void f(double *out, double *y, double Tgas, double nH, double user_a, double user_crflux) {{\n{der}\n{body}\n}}\n"
+    return f"#include <math.h>\n{macros}\nextern \"C\" void f(double *out, double *y, double Tgas, double nH, {', '.join('double ' + u for u in USER)}) {{\n{der}\n{body}\n}}\n"
 
 
 def compile_tu(text, path, table=None):
@@ -311,6 +313,8 @@ def main(pid, tier):
     work = os.path.join(proj.scratch_root(), "c12")
     os.makedirs(work, exist_ok=True)
     exprs = gen_exprs(1200 if thorough else 260, chk.seed) + bundled_exprs(thorough)
+    global USER
+    USER = sorted(set(USER) | {m for e in exprs for m in re.findall(r"\buser_\w+", e)})
     tr = translate(exprs, work)
     deriveds = tr["deriveds"]
     accepted = [(i, exprs[i], o["c"]) for i, o in enumerate(tr["out"]) if o["ok"]]
@@ -358,7 +362,7 @@ def main(pid, tier):
         st = State()
         H.make_array(st, "out", len(b))
         H.make_array(st, "y", len(y), y)
-        M.run_function("f", st, [Ptr("out", 0), Ptr("y", 0), T, z3.Real("nH"), users["user_a"], users["user_crflux"]])
+        M.run_function("f", st, [Ptr("out", 0), Ptr("y", 0), T, z3.Real("nH"), *[users[u] for u in USER]])
         chk.functions.add("ExpressionConverter(Fortran->C) output, compiled")
         for n, (idx, fe, ce) in enumerate(b):
             got = st.load("out", 8 * n)
@@ -397,7 +401,7 @@ def _native_replay(chk, natq, deriveds, work):
 
     rnd = random.Random(chk.seed + 3)
     tu = make_tu([(n, c) for n, (_, _, c, _, _) in enumerate(natq)], deriveds, False)
-    tu += "#include <stdio.h>\nint main(int argc, char** argv) { double y[16]; double in[32]; for (int i = 1; i < argc; i++) sscanf(argv[i], \"%%lf\", &in[i-1]);\n for (int j = 0; j < %d; j++) y[j] = in[4 + j];\n static double out[%d]; f(out, y, in[0], in[1], in[2], in[3]); for (int i = 0; i < %d; i++) printf(\"%%.17g\\n\", out[i]); return 0; }\n" % (len(SLOT), len(natq) + 1, len(natq))
+    tu += "#include <stdio.h>\nint main(int argc, char** argv) { double y[16]; double in[64]; for (int i = 1; i < argc; i++) sscanf(argv[i], \"%%lf\", &in[i-1]);\n for (int j = 0; j < %d; j++) y[j] = in[%d + j];\n static double out[%d]; f(out, y, in[0], in[1]%s); for (int i = 0; i < %d; i++) printf(\"%%.17g\\n\", out[i]); return 0; }\n" % (len(SLOT), 2 + len(USER), len(natq) + 1, "".join(f", in[{2 + k}]" for k in range(len(USER))), len(natq))
     src = os.path.join(work, "replay.cpp")
     open(src, "w").write(tu)
     r = subprocess.run(["g++", "-O0", "-w", "-ffp-contract=off", src, "-o", src + ".exe", "-lm"], capture_output=True, text=True)
@@ -407,10 +411,11 @@ def _native_replay(chk, natq, deriveds, work):
         return
     confirmed = {}
     for attempt in range(6):
-        vals = [rnd.uniform(5, 500), rnd.uniform(1, 100), rnd.uniform(0.5, 4), rnd.uniform(0.5, 4)] + [rnd.uniform(0.1, 3) for _ in SLOT]
+        vals = [rnd.uniform(5, 500), rnd.uniform(1, 100)] + [rnd.uniform(0.5, 4) for _ in USER] + [rnd.uniform(0.1, 3) for _ in SLOT]
         out = subprocess.run([src + ".exe", *[repr(v) for v in vals]], capture_output=True, text=True).stdout.split()
-        envf = {"Tgas": vals[0], "nH": vals[1], "user_a": vals[2], "user_crflux": vals[3]}
-        envf.update({f"y{j}": vals[4 + j] for j in range(len(SLOT))})
+        envf = {"Tgas": vals[0], "nH": vals[1]}
+        envf.update({u: vals[2 + k] for k, u in enumerate(USER)})
+        envf.update({f"y{j}": vals[2 + len(USER) + j] for j in range(len(SLOT))})
         for n, (idx, fe, ce, ref, name) in enumerate(natq):
             if idx in confirmed:
                 continue
